@@ -32,9 +32,36 @@ def guard_drops(body, guard_local):
         t = blk["t"]
         if t["k"] == "drop" and t.get("pl", {}).get("l") == guard_local:
             out.append(bi)
-        elif t["k"] == "call" and strip_generics(callee_key(t) or "").endswith("mem::drop") and t["args"] and t["args"][0].get("p", {}).get("l") == guard_local:
-            out.append(bi)
+        elif t["k"] == "call" and strip_generics(callee_key(t) or "").endswith("mem::drop") and t["args"] and "p" in t["args"][0]:
+            # follow plain moves `tmp = move guard` back to the guard local
+            l = t["args"][0]["p"]["l"]
+            for _ in range(6):
+                if l == guard_local:
+                    out.append(bi)
+                    break
+                ds = body.defs().get(l, [])
+                if len(ds) == 1 and ds[0][0] == "assign" and ds[0][3]["rv"]["k"] == "use" and "p" in ds[0][3]["rv"]["a"] and not ds[0][3]["rv"]["a"]["p"].get("pj"):
+                    l = ds[0][3]["rv"]["a"]["p"]["l"]
+                else:
+                    break
     return out
+
+
+def is_revision_load(F, b, t, short_ty, depth):
+    """an atomic load of self.last_applied_index, directly or inside a helper method of the same type"""
+    k = strip_generics(callee_key(t) or "")
+    if re.search(LOAD_RX, k):
+        return recv_has_self_field(F, b, t, short_ty, "last_applied_index")
+    for tg in F.resolve_targets(t):
+        if not self_type_of(F, tg).endswith(short_ty):
+            continue
+        for fid in closure_functions(F, tg, 3):
+            if not self_type_of(F, fid).endswith(short_ty):
+                continue
+            for hb in real_bodies(F, fid):
+                if any(recv_has_self_field(F, hb, ht, short_ty, "last_applied_index") for (_hi, ht) in calls_matching(hb, LOAD_RX)):
+                    return True
+    return False
 
 
 def run(ctx):
@@ -56,8 +83,7 @@ def run(ctx):
                 for (ai, _si, st) in aggs:
                     n_res += 1
                     rs = Slice(F, b).operand(agg_field(st, "revision"))
-                    loads = [(bi, t) for (bi, t) in rs.call_sites if re.search(LOAD_RX, strip_generics(callee_key(t) or ""))
-                             and recv_has_self_field(F, b, t, short_ty, "last_applied_index")]
+                    loads = [(bi, t) for (bi, t) in rs.call_sites if is_revision_load(F, b, t, short_ty, ctx.depth)]
                     key = "%s#ScanResult" % fkey(fid)
                     ctx.check("C25-c", key + ".revision", bool(loads), "revision = atomic load of last_applied_index",
                               "ScanResult.revision does not derive from an atomic load of %s.last_applied_index: %s" % (short_ty, sorted(rs.sources, key=str)[:5]),
